@@ -105,3 +105,27 @@ package bgv
 //@   nilable
 //@   requires len(op0.Value) >= 1 && len(op0.Value) <= 3
 //@   ensures implies(isnil(err), len(opOut.Value) == len(op0.Value))
+
+// ---- arguments are not retained (property C09): no reference to memory of the caller's input is stored
+// ---- into the receiver, the output or another argument (a pointer assignment where a copy was meant)
+//@ noescape Encoder.Encode values
+//@   property C09
+
+//@ noescape Encoder.Embed values
+//@   property C09
+
+//@ noescape Evaluator.Add op0
+//@   property C09
+
+//@ noescape Evaluator.Sub op0
+//@   property C09
+
+//@ noescape Evaluator.Mul op0
+//@   property C09
+
+//@ noescape Evaluator.MulThenAdd op0
+//@   property C09
+
+//@ noescape Evaluator.Rescale op0
+//@   property C09
+
